@@ -289,11 +289,15 @@ inline void run_workflow(const json& sc) {
         w.init(&m, beta, i, j);
         w.L = L2;
         for (auto& o : WfObjects::names()) w.make(o);
+        // the lattice is a value: scratch copies of it are made and destroyed while it is being built and afterwards (stuttering steps of
+        // Workflow.tla -- nothing the objects under test see may change, and the original must stay usable)
+        { Lattice early(*L2); }
         for (size_t k = 1; k < sites.size(); ++k) L2->addSite(sites[k][0].get<std::string>(), sites[k][1].get<int>(), sites[k][2].get<int>());
         for (const json& act : sc.at("build")) {
             json r = box2.call(act);
             if (r["res"] != "ok") throw std::runtime_error("build call rejected: " + act.dump());
         }
+        { Lattice scratch(*L2); Lattice again(scratch); }
     });
     if (!lex.empty()) { emit({{"e", "WFail"}, {"id", id}, {"fail", "lattice:" + lex}}); return; }
     emit({{"e", "WReset"}, {"id", id}});
